@@ -2104,6 +2104,13 @@ func c13Seek(c *Ctx) {
 }
 
 var c13Mutants = []Mutant{
+	{Name: "upload-length-mismatch-reported-as-success", File: "registry/remote/repository.go",
+		Old:    "\t\treturn fmt.Errorf(\"mismatch content length %d: expect %d\", req.ContentLength, expected.Size)\n\t}\n\treq.ContentLength = expected.Size\n\t// the expected media type is ignored as in the API doc.",
+		New:    "\t\treturn nil\n\t}\n\treq.ContentLength = expected.Size\n\t// the expected media type is ignored as in the API doc.",
+		Expect: "C13.R1.success-needs-exchange"},
+	{Name: "predecessors-listing-error-dropped", File: "registry/remote/repository.go",
+		Old: "\t}); err != nil {\n\t\treturn nil, err\n\t}\n\treturn res, nil", New: "\t}); err != nil {\n\t\treturn res, nil\n\t}\n\treturn res, nil",
+		Expect: "C13.R1.predecessors-surfaces-failure"},
 	{Name: "location-host-fixup-widened", File: "registry/remote/repository.go",
 		Old:    "\tif reqPort == \"443\" && locationHostname == reqHostname && locationPort == \"\" {",
 		New:    "\tif reqPort == \"443\" || locationHostname == reqHostname && locationPort == \"\" {",
